@@ -972,6 +972,22 @@ def suite_ser(g, scale):
             g.emit("rd64 %s %s %s" % (y, entry, x))
             g.emit("eq64 %s %s" % (y, x))
         g.count("ser64:tiny-run-buckets")
+    # 1f. a chunk kept as a RUN container with 2040…2056 runs (the library keeps runs while 2+4*runs < 8224 bytes): library-made, must
+    #     validate before and after every round trip
+    for nruns in (2040, 2047, 2048, 2050, 2055, 2056):
+        x = g.fresh("m")
+        g.emit("new64 %s" % x)
+        for off in (0, 1, 2):
+            g.emit("addstride64 %s %d 31 %d" % (x, (5 << 32) + 3 * 65536 + off, nruns))
+        g.emit("add64 %s %d" % (x, 9 << 32))
+        g.emit("opt64 %s" % x)
+        g.emit("wf64 %s" % x)
+        g.emit("ser64 %s" % x)
+        for entry in ENTRIES:
+            y = g.fresh("d")
+            g.emit("rd64 %s %s %s" % (y, entry, x))
+            g.emit("wf64 %s" % y)
+        g.count("ser64:max-run-count")
     # 2. small streams: spec reading of the bytes, truncation sweep, header corruption
     for _ in range(int(10 * scale)):
         x = g.fresh("s")
